@@ -28,7 +28,8 @@ def tree_of(xml_text):
         return {"ok": False, "err": str(e)}
 
 
-def add_trees(src, dst):
+def add_trees(src, dst, texts):
+    """Parse the XML texts strictly and hand TLC the element trees; the texts themselves stay in `texts` (by id)."""
     n = 0
     with open(src) as f, open(dst, "a") as g:
         for line in f:
@@ -37,18 +38,26 @@ def add_trees(src, dst):
             o = json.loads(line)
             o["tree0"] = tree_of(o["xml0"])
             o["tree1"] = tree_of(o["xml1"]) if "xml1" in o else {"ok": False, "err": "nothing written"}
+            # the two read-back paths normally agree: do not make TLC parse the same document twice
+            if o.get("third", {}).get("ok"):
+                o["third"]["same"] = bool(o.get("second", {}).get("ok") and o["third"]["doc"] == o["second"]["doc"])
+                if o["third"]["same"]:
+                    del o["third"]["doc"]
+            o["id"] = len(texts)
+            texts.append(o.pop("xml1", ""))
+            o.pop("xml0", None)
             g.write(json.dumps(o) + "\n")
             n += 1
     return n
 
 
-def classify(chk, mism, lines):
+def classify(chk, mism, lines, texts=()):
     rm.tool_clauses(mism, lines)
     for m in mism:
         obs = json.loads(lines[m["line"] - 1])
         d = m.get("detail") if isinstance(m.get("detail"), dict) else {}
         rp = {"observation": {"ev": "Xml", "doc": obs["doc"]}, "mismatch": m}
-        what = {"clause": m["what"], "detail": rm.text(d), "written": obs.get("xml1", "")[:600]}
+        what = {"clause": m["what"], "detail": rm.text(d), "written": (texts[obs["id"]] if obs["id"] < len(texts) else "")[:600]}
         devs = d["devs"] if "devs" in d else [d.get("dev", "none")]
         if devs == ["none"]:
             chk.report("%s:unexplained" % m["what"], what, rp)
@@ -60,7 +69,7 @@ def classify(chk, mism, lines):
 
 def tricky(o):
     s = json.dumps(o["doc"])
-    return any(("%d" % c) in s for c in ()) or any(ch in o.get("xml0", "") for ch in ("&", "é", "€"))
+    return any(k in s for k in ("38,", "60,", "62,", "34,", "39,", "10,", "13,", "9,", "195,", "226,"))
 
 
 def run(pid, tier, replay):
@@ -69,25 +78,31 @@ def run(pid, tier, replay):
     binp = core.build("xml")
     if replay:
         return do_replay(chk, binp, replay)
+    rm.stage(chk, "start")
     quick = chk.quick
+    rm.stage(chk, "build")
     cases = chk.path("cases.ndjson")
     g, n = core.tlc_generate("mc/MC_XmlDoc.tla", "mc/MC_XmlDoc_gen.cfg", cases, timeout=3000)
     if n == 0:
         raise core.ToolError("MC_XmlDoc emitted no case")
     chk.add_tlc(g)
     chk.add("mc_states", g.distinct)
+    rm.stage(chk, "tlc-gen")
     raw = chk.path("obs_raw.ndjson")
     core.run_bin(binp, ["xml-obs", cases, raw])
     obs = chk.path("obs.ndjson")
     open(obs, "w").close()
-    if add_trees(raw, obs) != n:
+    texts = []
+    if add_trees(raw, obs, texts) != n:
         raise core.ToolError("harness answered fewer lines than the %d cases" % n)
-    nr = 1200 if quick else 60000
+    nr = 800 if quick else 60000
     rraw = chk.path("obs_rand_raw.ndjson")
     core.run_bin(binp, ["xml-rand", nr, chk.seed, rraw])
-    add_trees(rraw, obs)
+    add_trees(rraw, obs, texts)
+    rm.stage(chk, "observe")
     out, lines = rm.validate(chk, "XmlCheck", obs, shards=4 if quick else 14, tags=("MISMATCH", "NOTE"))
-    classify(chk, out["MISMATCH"], lines)
+    rm.stage(chk, "tlc-check")
+    classify(chk, out["MISMATCH"], lines, texts)
     chk.add("enumerated_cases", n)
     chk.add("random_cases", len(lines) - n)
     chk.cov["exhaustive"] = True
@@ -113,7 +128,7 @@ def run(pid, tier, replay):
     chk.cov["rule"] = ("cases = TLC-enumerated documents (Gen_Xml slices) + seeded random documents; distinct by document; "
                        "non-trivial = has child nodes or text that needs XML escaping / is non-ASCII")
     for o in objs[:2] + objs[-2:]:
-        chk.sample({"doc": rm.text(o["doc"]), "written": o.get("xml1", "")[:300], "read_back_equal": o.get("second", {}).get("eq")})
+        chk.sample({"doc": rm.text(o["doc"]), "written": texts[o["id"]][:300], "read_back_equal": o.get("second", {}).get("eq")})
     chk.assumptions += [
         "document values are made by reading XML (zbus_xml's fields are private); the harness's XML for a document is checked "
         "against XmlDoc!Denote with a strict parser before use",
@@ -136,10 +151,11 @@ def do_replay(chk, binp, path):
     core.run_bin(binp, ["xml-obs", case, raw])
     obs = chk.path("replay_obs.ndjson")
     open(obs, "w").close()
-    add_trees(raw, obs)
+    texts = []
+    add_trees(raw, obs, texts)
     out, lines = rm.validate(chk, "XmlCheck", obs, shards=1, tags=("MISMATCH", "NOTE"))
-    classify(chk, out["MISMATCH"], lines)
+    classify(chk, out["MISMATCH"], lines, texts)
     chk.cov["evaluations"] = 1
     o = json.loads(lines[0])
-    chk.sample({"doc": rm.text(o["doc"]), "written": o.get("xml1", "")[:300]})
+    chk.sample({"doc": rm.text(o["doc"]), "written": texts[0][:300]})
     return chk.finish()
